@@ -46,7 +46,7 @@ ASSUMPTIONS = [
     "$GENERATE ranges are capped by the generator (a documented huge loop is not a hang); inputs <= 64 KiB",
 ]
 REQUIRED = ["mon.structured_message_mutations", "ep.message.from_wire", "ep.name.from_wire", "ep.rdata.from_wire", "ep.edns.option_from_wire", "ep.name.from_text", "ep.rdata.from_text",
-            "ep.ttl.from_text", "ep.zone.from_text", "ep.zonefile.read_rrsets", "ep.message.from_text", "ep.rrset.from_text", "mon.rerender", "mon.continue_on_error", "mon.continue_on_error_one_damaged_record"]
+            "ep.ttl.from_text", "ep.zone.from_text", "ep.zonefile.read_rrsets", "ep.message.from_text", "ep.rrset.from_text", "mon.rerender", "mon.continue_on_error", "mon.continue_on_error_one_damaged_record", "mon.keyring_of_bare_secrets"]
 BUDGET = {"quick": 50.0, "thorough": 480.0}
 
 ATOMS = ["\\300", "\\256", "\\999", "\\00", "\\0", "\\", "\\1a2", '""', '"', "(", ")", "((", "))", ";", "$TTL", "$ORIGIN", "$GENERATE", "$INCLUDE", "$UNICODE", "$",
@@ -217,8 +217,13 @@ def structured_message_mutation(rng, w):
     if len(b) < 12:
         return bytes(b)
     for _ in range(rng.choice((1, 1, 2, 3))):
-        k = rng.choice(("opcode", "opcode-update", "counts", "class", "type"))
-        if k == "opcode":
+        k = rng.choice(("opcode", "opcode-update", "counts", "class", "type", "tsig-algorithm"))
+        if k == "tsig-algorithm":
+            # the algorithm name inside a TSIG record replaced by one the library does not implement (or cut short)
+            i = bytes(b).rfind(b"hmac-")
+            if i > 0:
+                b[i + rng.randrange(5, 9)] = rng.choice(b"xyz09-")
+        elif k == "opcode":
             b[2] = (b[2] & 0x87) | (rng.randrange(16) << 3)
         elif k == "opcode-update":
             b[2] = (b[2] & 0x87) | (5 << 3)
@@ -261,7 +266,7 @@ def fuzz_message_wire(mon, rng, w, tag, keyring=None):
     opts = dict(question_only=rng.random() < 0.15, one_rr_per_rrset=rng.random() < 0.3, ignore_trailing=rng.random() < 0.3,
                 raise_on_truncation=rng.random() < 0.3, continue_on_error=rng.random() < 0.4, xfr=rng.random() < 0.2)
     origin = dns.name.from_text("example.") if rng.random() < 0.2 else None
-    case = {"kind": "msgwire", "wire": w, "opts": opts, "origin": origin is not None, "keyring": keyring is not None}
+    case = {"kind": "msgwire", "wire": w, "opts": opts, "origin": origin is not None, "keyring": None if keyring is None else "key" if not isinstance(keyring, dict) else "dict-of-secrets" if isinstance(next(iter(keyring.values())), bytes) else "dict-of-keys"}
     m = mon.run("message.from_wire", lambda: dns.message.from_wire(w, keyring=keyring, origin=origin, **opts), n, case)
     ctx = mon.ctx
     if opts["continue_on_error"]:
@@ -529,7 +534,11 @@ def run(spec, ctx):
                 fw = bytes(rng.randrange(256) for _ in range(rng.choice((0, 5, 11, 12, 13, 40, 200))))
             else:
                 fw = w[:12] + bytes(rng.randrange(256) for _ in range(rng.randint(0, 60)))
-            fuzz_message_wire(mon, rng, fw, "mut", keyring=key if rng.random() < 0.3 else None)
+            # the keyring: none, the key object, or the documented dict forms (name -> key object / name -> bare secret)
+            kr = rng.choice((None, None, None, None, key, key, {key.name: key}, {key.name: key.secret}))
+            if isinstance(kr, dict) and isinstance(kr[key.name], bytes):
+                ctx.count("mon.keyring_of_bare_secrets")
+            fuzz_message_wire(mon, rng, fw, "mut", keyring=kr)
             if i % 4 == 0:
                 check_one_damaged_record(ctx, rng)
             # --- names (wire)
@@ -586,6 +595,10 @@ def replay(case, ctx):
             opts = case["opts"]
             origin = dns.name.from_text("example.") if case.get("origin") else None
             key = dns.tsig.Key("k.example.", b"0123456789abcdef") if case.get("keyring") else None
+            if case.get("keyring") == "dict-of-secrets":
+                key = {key.name: key.secret}
+            elif case.get("keyring") == "dict-of-keys":
+                key = {key.name: key}
             w = case["wire"]
             m = mon.run("message.from_wire", lambda: dns.message.from_wire(w, keyring=key, origin=origin, **opts), len(w), case)
             if m is not None:
